@@ -26,6 +26,9 @@ claimed = {
  "C17": dict(text="Lean theorems (PV.Props.C17, 18 obligations): the byte-exact model of new_from_native / to_native equals an explicit layout spec for every buffer and length; native round trips in both directions for all addresses, ports, flow infos and scope ids; port byte order; size/family; any/loopback classification (mask proved by bit extensionality); too-small buffers fail without any write; no out-of-bounds read or write for every length; IPv4 text round trip for all 2^32 addresses with concrete ntop4/pton4; IPv6 text relative to the platform contract; creation-from-text dispatch and success conditions. Tied by translator facts (struct sizes/offsets from a compiled probe, config macros, loopback mask, statement order) and a differential run with exact-size heap buffers under ASan and a platform column from the harness's own inet_pton/inet_ntop.",
              note=TB + "inet_pton/inet_ntop/getaddrinfo are parameters of the model (platform contract pton6(ntop6 a) = a is a hypothesis of the IPv6 text theorem).",
              technique="Lean 4 proof (byte-level model = layout spec, round trips, bounds) + translator + differential correspondence under ASan", ref="§3 C17"),
+ "C16": dict(text="Lean theorems (PV.Props.C16, 17 obligations): for ALL byte strings the parser model is total (structural recursion), every string copied into the fixed 1025-byte buffers is <= 1024 bytes (so the strcpy/sscanf stores stay in bounds), and the object is consistent (every listed section has a key, every listed key exists and has a retrievable value); for documents of the documented grammar (all quoting styles, trailing comments, blanks, CRLF, BOMs, repeated keys, empty sections, preamble, comment lines with '=', lines up to 1024 bytes) parse(render d) = the documented meaning (parse_render_partial: the excluded corners are explicit WF hypotheses), getters convert as documented. The model's sscanf patterns are decide-checked equal to the format strings extracted from the source. Tied by a differential run of the real parser under ASan/UBSan on rendered, mutated and random files (every getter compared, doubles bit for bit).",
+             note=TB + "libc sscanf/fgets/isspace/atoi in the C locale agree with the model's semantics (validated by the differential only); no theorem about floating point (p_strtod compared bit-for-bit). parse_render is _partial: 'key =' without value, repeated section headers, NULs, over-long lines and a few quoting corners are WF hypotheses (documented in Props/C16.lean).",
+             technique="Lean 4 proof (total parser model, bounds, grammar round trip) + translator (format strings) + differential correspondence under ASan/UBSan", ref="§3 C16"),
 }
 checks = []
 for pid, c in sorted(claimed.items()):
